@@ -1,5 +1,6 @@
 """C09 - default print -> parse round trip (narrow): the structural conditions the identity needs.
 Does NOT decide that print and parse are inverse as functions of values."""
+from ..rules_r5 import lookahead_agree
 from .. import mir
 from ..term import Terms, show, alts, walk, is_call
 from ..rules_dep import run_dep
@@ -7,6 +8,7 @@ from ..rules_dep import run_dep
 
 def run(ctx, rep):
     prog = ctx.prog("Q")
+    lookahead_agree(rep, prog)
     rep.notes.append("Does not decide round-trip equality of values, RFC 3339/9557 grammar conformance of the printed text, or "
                      "agreement with an independent reader; decides only the three structural conditions listed.")
     run_dep(ctx, rep, "C09")
